@@ -189,8 +189,29 @@ std::string cDriver(const RunPlan &plan)
     const bool ode = plan.ode, ext = plan.externals;
     o << "#include \"model.h\"\n#include <math.h>\n#include <stdio.h>\n#include <string.h>\n\n";
     o << "static double g_resid = 0.0; static long g_calls = 0; static int g_point = 0; static int g_stage = 0;\n";
+    const bool stale = plan.staleOrder && ode;
+    if (stale) {
+        // solutions (second point) of the systems that computeVariables must solve again, looked up by sentinel
+        o << "static int g_resolve = 0;\nstatic const size_t resIdx[] = {0";
+        for (size_t k : plan.staleResolve) {
+            o << ", " << k;
+        }
+        o << "}; static const double resVal[] = {0";
+        for (size_t k : plan.staleResolve) {
+            double v = std::nan("");
+            for (const auto &p : plan.preload[1]) {
+                if (p.first == k) {
+                    v = p.second;
+                }
+            }
+            o << ", " << num(v);
+        }
+        o << "};\nstatic double sentinel(size_t k) { return -(double)(k + 1) * 1.0e150; }\n";
+    }
     o << "void nlaSolve(void (*objectiveFunction)(double *, double *, void *), double *u, size_t n, void *data)\n{\n"
-         "    double f[64]; size_t i; for (i = 0; i < n && i < 64; ++i) f[i] = NAN;\n    objectiveFunction(u, f, data); ++g_calls;\n"
+         "    double f[64]; size_t i; for (i = 0; i < n && i < 64; ++i) f[i] = NAN;\n"
+      << (stale ? "    if (g_resolve) { size_t j; for (i = 0; i < n; ++i) for (j = 1; j < " + std::to_string(plan.staleResolve.size() + 1) + "; ++j) if (u[i] == sentinel(resIdx[j])) u[i] = resVal[j]; }\n" : "")
+      << "    objectiveFunction(u, f, data); ++g_calls;\n"
          "    for (i = 0; i < n && i < 64; ++i) { if (!(fabs(f[i]) <= g_resid)) g_resid = isnan(f[i]) ? INFINITY : fabs(f[i]); }\n}\n";
     o << "static void dump(const char *tag, const double *a, size_t n) { size_t i; printf(\"%s\", tag); for (i = 0; i < n; ++i) printf(\" %.17g\", a[i]); printf(\"\\n\"); }\n";
     o << "static size_t g_nstates = 0; static double *g_states = 0;\n";
@@ -249,12 +270,18 @@ std::string cDriver(const RunPlan &plan)
     std::string extArg = ext ? ", externalVariable" : "";
     if (ode) {
         o << "    double *states = createStatesArray();\n    double *rates = createStatesArray();\n";
+        if (stale) {
+            o << "    double *states0 = createStatesArray();\n    double *ratesSaved = createStatesArray();\n";
+        }
         if (ext) {
             o << "    initialiseVariables(" << num(plan.voi[0]) << ", states, rates, variables, externalVariable);\n";
         } else {
             o << "    initialiseVariables(states, rates, variables);\n";
         }
         o << "    dump(\"INIT_STATES\", states, STATE_COUNT);\n";
+        if (stale) {
+            o << "    memcpy(states0, states, STATE_COUNT * sizeof(double));\n";
+        }
     } else {
         o << "    initialiseVariables(variables" << extArg << ");\n";
     }
@@ -280,6 +307,30 @@ std::string cDriver(const RunPlan &plan)
             o << "    g_stage = 1;\n    computeRates(" << num(plan.voi[pt]) << ", states, rates, variables" << extArg << ");\n    dump(\"RATES" << pt << "\", rates, STATE_COUNT);\n"
               << "    dump(\"VARSR" << pt << "\", variables, VARIABLE_COUNT);\n"
               << poison;
+            if (stale && pt == 1) {
+                // rates again at the first point, then back to the second point for computeVariables
+                o << "    memcpy(ratesSaved, rates, STATE_COUNT * sizeof(double));\n    memcpy(states, states0, STATE_COUNT * sizeof(double));\n";
+                for (const auto &p : plan.preload[0]) {
+                    o << "    variables[" << p.first << "] = " << num(p.second) << ";\n";
+                }
+                o << "    g_point = 0; g_stage = 1;\n    computeRates(" << num(plan.voi[0]) << ", states, rates, variables" << extArg << ");\n" << poison;
+                o << "    g_point = 1;\n    memcpy(rates, ratesSaved, STATE_COUNT * sizeof(double));\n";
+                for (size_t i = 0; i < plan.states2.size(); ++i) {
+                    o << "    states[" << i << "] = " << num(plan.states2[i]) << ";\n";
+                }
+                for (const auto &p : plan.preload[1]) {
+                    bool resolve = false;
+                    for (size_t k : plan.staleResolve) {
+                        resolve = resolve || k == p.first;
+                    }
+                    if (resolve) {
+                        o << "    variables[" << p.first << "] = sentinel(" << p.first << ");\n";
+                    } else {
+                        o << "    variables[" << p.first << "] = " << num(p.second) << ";\n";
+                    }
+                }
+                o << "    g_resolve = 1;\n";
+            }
             o << "    g_stage = 2;\n    computeVariables(" << num(plan.voi[pt]) << ", states, rates, variables" << extArg << ");\n    dump(\"STATES" << pt << "\", states, STATE_COUNT);\n";
         } else {
             o << "    g_stage = 2;\n    computeVariables(variables" << extArg << ");\n";
@@ -289,6 +340,9 @@ std::string cDriver(const RunPlan &plan)
     }
     o << "    printf(\"RESID %.17g %ld\\n\", g_resid, g_calls);\n";
     o << "    deleteArray(variables);\n";
+    if (stale) {
+        o << "    deleteArray(states0);\n    deleteArray(ratesSaved);\n";
+    }
     if (ode) {
         o << "    deleteArray(states);\n    deleteArray(rates);\n";
     }
@@ -414,6 +468,11 @@ bool CodeRunner::runPython(const std::string &impl, const RunPlan &plan, RunResu
         rq << "\n";
     }
     rq << "POISON " << (plan.externals && plan.poisonExternals ? 1 : 0) << "\n";
+    rq << "STALE " << (plan.staleOrder && plan.ode ? 1 : 0) << "\nRESOLVE";
+    for (size_t k : plan.staleResolve) {
+        rq << " " << k;
+    }
+    rq << "\n";
     std::string req = rq.str();
     // python float() understands nan/inf spelled in lower case
     for (const char *from : {"NAN", "INFINITY"}) {
